@@ -138,7 +138,7 @@ func checkC11(p *Prog, r *Report) {
 						}
 					}
 				}
-				if _, isPhi := resolveFree(cc.Common().Value).(*ssa.Phi); isPhi && 0 == len(cc.Common().Args) && !cc.Common().IsInvoke() {
+				if _, isPhi := p.resolveUp(cc.Common().Value).(*ssa.Phi); isPhi && 0 == len(cc.Common().Args) && !cc.Common().IsInvoke() {
 					fcall = cc
 				}
 			})
@@ -191,7 +191,7 @@ func checkC11(p *Prog, r *Report) {
 				}
 				/* A flush which cannot fail would make "flush succeeded"
 				meaningless: same selection rule as C02. */
-				checkFlushSelection(rIn, fn, fcall, w)
+				checkFlushSelection(p, rIn, fn, fcall, w)
 				/* Data operand. */
 				var payload ssa.Value
 				switch calleeName(wcall.Common()) {
